@@ -67,6 +67,18 @@ def junk_frames(uni, rnd, tier):
             f2 = copy.deepcopy(flt)
             f2[key] = j
             frames.append(["REQ", "jsub", f2])
+    # correctly signed events whose tags are hostile: they pass the signature check and reach storage, matching and fan-out
+    hostile_tags = [[["e", ["nested"]]], [["t", {"a": 1}]], [["t", None]], [["t", 5]], [[]], [["e"]], [[None]], [["t", "a", ["x"]]],
+                    [["p", ["A"]], ["e", "x"]], [["delegation", "x"]], [["expiration", ["1"]]], [["d", ["x"]]], [["t", ["a"]], ["t", "a"]],
+                    [["e", {"k": []}]], [[["t"], "a"]], [["t", True]], [["t", 1.5]], [["p", ev["pubkey"], ["relay"]]]]
+    n = 0
+    for kind in (1, 5, 30000, 10000, 20000):
+        for tags in hostile_tags:
+            n += 1
+            try:
+                frames.append(["EVENT", C.mk_event("C", kind=kind, created_at=C.T0 + 100 + n, tags=tags, content="hostile %d" % n)])
+            except Exception:
+                pass
     texts = [json.dumps(f, ensure_ascii=False) for f in frames]
     texts += ["", " ", "not json", "[", "{}", "null", "[]", "[1]", '["EVENT"]', '["REQ"]', '["NOPE", 1]', '"EVENT"', "[[\"EVENT\"]]", "\x00",
               json.dumps(nested(200)), json.dumps(["REQ", "deep", {"kinds": nested(100)}]), json.dumps(["EVENT", {"id": nested(50)}]),
@@ -86,6 +98,8 @@ def transcript(log, c):
     for ln in log:
         if ln["a"] == "Send" and ln["c"] == c:
             f = ln["f"]
+            if f["t"] == "GARBAGE" and f.get("why") == "event-not-verbatim":
+                continue        # a push of the (accepted) hostile event itself: it is not part of the universe
             out.append((f["t"], f.get("sid", ""), f.get("e", ""), f.get("ok", "")))
         elif ln["a"] == "WsClose" and ln["c"] == c:
             out.append(("WSCLOSE", ln["code"]))
@@ -97,10 +111,12 @@ def _worker(payload):
     from .. import relaydrv, storedrv
 
     uni = universe()
-    sid_map = {"w1": "well1", "p1": "probe1", "jsub": "jsub"}
+    sid_map = {"w1": "well1", "w2": "well2", "w3": "well3", "p1": "probe1", "jsub": "jsub"}
 
     def schedule(junk, zero_continues):
-        s = [("open", 0), ("open", 1), ("msg", 1, {"m": "REQ", "sid": "w1", "fs": [{"kinds": [1]}]}), ("idle",)]
+        s = [("open", 0), ("open", 1), ("msg", 1, {"m": "REQ", "sid": "w1", "fs": [{"kinds": [1]}]}), ("idle",),
+             ("msg", 1, {"m": "REQ", "sid": "w2", "fs": [{"tags": {"t": ["a"]}}]}), ("idle",),
+             ("msg", 1, {"m": "REQ", "sid": "w3", "fs": [{"tags": {"e": ["p0"], "p": ["A"]}}, {"authors": ["B"], "tags": {"t": ["b"]}}]}), ("idle",)]
         if junk is not None:
             s += [("msg", 0, {"m": "RAW", "text": junk}), ("idle",)]
         if zero_continues:
@@ -140,7 +156,7 @@ def _worker(payload):
                     elif cur == "REQ" and ln["f"]["t"] in ("EOSE", "NOTICE") and ln["f"].get("sid", "p1") == "p1":
                         probes["REQ"] = True
                     elif cur == "EVENT" and ln["f"]["t"] == "OK":
-                        probes["EVENT"] = True
+                        probes["EVENT"] = bool(ln["f"]["ok"])      # a new valid event must be accepted, not merely answered
                 elif ln["a"] in ("WsClose",) and ln["c"] == 0:
                     closed = True
                 elif ln["a"] == "Disc" and ln["c"] == 0 and cur == "RAW":
